@@ -91,6 +91,9 @@ pub enum ManifestFault {
     /// signature untouched; the archive carries k2's content under the merged name and neither
     /// k1 nor k2 (the signed hash covers the plain concatenation of keys and values)
     MergeEntries(usize),
+    /// manifest untouched (validly signed); in the archive a listed path is a *directory* holding
+    /// files of the mirror's choosing instead of the listed file
+    ListedPathAsDirectory(usize),
 }
 
 #[derive(Serialize, Deserialize, Clone, Debug, PartialEq, Eq)]
@@ -143,6 +146,7 @@ impl Fault {
                 ManifestFault::ManifestMissing => "manifest_missing",
                 ManifestFault::NotJson => "manifest_not_json",
                 ManifestFault::MergeEntries(_) => "manifest_entries_merged_signature_kept",
+                ManifestFault::ListedPathAsDirectory(_) => "manifest_listed_path_served_as_directory",
             },
         }
     }
@@ -364,8 +368,9 @@ pub fn generate(rng: &mut Rng) -> (Config, Vec<Fault>) {
             }
             _ => {
                 // ancillary manifest family (only meaningful when some step downloads ancillary)
-                let what = match rng.below(11) {
+                let what = match rng.below(12) {
                     10 => ManifestFault::MergeEntries(rng.index(8)),
+                    11 => ManifestFault::ListedPathAsDirectory(rng.index(8)),
                     0 => ManifestFault::HashChanged(rng.index(8)),
                     1 => ManifestFault::EntryAdded(
                         rng.pick(&[
@@ -630,6 +635,21 @@ pub fn build_step(cfg: &Config, faults: &[Fault], step: usize, root: &Path) -> B
                     }
                     ManifestFault::NotJson => {
                         manifest_raw = Some(b"{ this is not json".to_vec());
+                    }
+                    ManifestFault::ListedPathAsDirectory(i) => {
+                        let listed_now: Vec<PathBuf> = data.keys().cloned().collect();
+                        if !listed_now.is_empty() {
+                            let k = listed_now[i % listed_now.len()].to_string_lossy().to_string();
+                            if k.len() < 80 {
+                                entries.retain(|e| e.path != k);
+                                entries.push(Entry { path: k.clone(), kind: EntryKind::Dir, disguise: None });
+                                for inner in ["state", "tables/tvar", "evil.bin"] {
+                                    let p = format!("{k}/{inner}");
+                                    let bytes = Rng::for_run(cfg.content_seed, &p, 91).bytes(29);
+                                    entries.push(Entry::file(&p, bytes));
+                                }
+                            }
+                        }
                     }
                     ManifestFault::MergeEntries(i) => {
                         if data.len() >= 2 {
